@@ -41,6 +41,8 @@ type attr struct {
 	WF    bool     `json:"wf"`
 	// Defect optionally names a concrete defect class realising wf=false / sig=false
 	Defect string `json:"defect,omitempty"`
+	// PayloadOf: this transaction declares the payload (hash) of another transaction of the universe
+	PayloadOf string `json:"payload_of,omitempty"`
 }
 
 type subSpec struct {
@@ -204,6 +206,9 @@ func (w *world) build(n string, a attr, top dag.Transaction) {
 		}
 	}
 	payload := []byte("payload-of-" + n)
+	if a.PayloadOf != "" {
+		payload = []byte("payload-of-" + a.PayloadOf)
+	}
 	ph := sha256.Sum256(payload)
 	phHex := []byte(hex.EncodeToString(ph[:]))
 	h := txforge.TxHeaders(key, prevs, lc, time.Now().Unix(), "application/x-verif")
@@ -439,6 +444,7 @@ type run struct {
 	addErr   map[string]error
 	stepNo   int
 	defResp  string
+	onlyOK   bool // every receiver answer in this script is "ok" and the process never stops
 	corrupt  map[uint32]bool // pages whose XOR leaf the environment corrupted and the repair has not visited yet
 	fatalGen map[string]int
 	killed   bool // the incarnation died inside a receiver; steps until the scripted Crash cannot happen
@@ -575,6 +581,10 @@ func (r *run) receive(gen int, sub string, ev dag.Event) (bool, error) {
 		r.mu.Lock()
 		r.fatalGen[key] = gen
 		r.mu.Unlock()
+		if sub != "s1" {
+			// like handlePrivateTxRetry: the fatal error is wrapped in another error
+			return false, fmt.Errorf("scripted failure: %w", dag.EventFatal{Err: errors.New("scripted fatal")})
+		}
 		return false, dag.EventFatal{Err: errors.New("scripted fatal")}
 	case "crash":
 		// the process stops while the receiver runs: completion is never recorded
@@ -803,7 +813,7 @@ func (r *run) checkAdmission(db stoabs.KVStore, when string) {
 		}
 		if c := r.w.byRef[ref]; c != nil {
 			if !c.a.WF || !c.a.Sig {
-				r.violL("C06", "invalid-admitted", fmt.Sprintf("%s: %s (wf=%v sig=%v defect=%s) was admitted", when, c.name, c.a.WF, c.a.Sig, c.a.Defect))
+				r.violL("C06", "invalid-admitted:"+c.a.Defect, fmt.Sprintf("%s: %s (wf=%v sig=%v defect=%s) was admitted", when, c.name, c.a.WF, c.a.Sig, c.a.Defect))
 			}
 		}
 	}
@@ -832,6 +842,17 @@ func (r *run) checkAdmission(db stoabs.KVStore, when string) {
 		}
 	}
 	r.mu.Lock()
+	if r.onlyOK {
+		for sub, l := range r.ledger {
+			seenOnce := map[string]bool{}
+			for _, n := range l {
+				if seenOnce[n] {
+					r.viol("C06", "notified-twice", fmt.Sprintf("%s: subscriber %s (which always reports completion) was notified twice of %s", when, sub, n))
+				}
+				seenOnce[n] = true
+			}
+		}
+	}
 	for sub, l := range r.ledger {
 		for _, n := range l {
 			c := r.w.txs[n]
@@ -894,6 +915,12 @@ func (w0 *world) runScript(t *testing.T, sc script) *result {
 	if d, ok := sc.Default[""]; ok {
 		r.defResp = d
 	}
+	r.onlyOK = r.defResp == "" || r.defResp == "ok"
+	for _, s := range sc.Steps {
+		if s.str("a") == "Crash" || (s.str("a") == "NotifyCall" && s.str("res") != "ok" && s.str("res") != "gone") {
+			r.onlyOK = false
+		}
+	}
 	r.restarts = sc.Restarts
 	expectedCalls := map[string]int{}
 	actors := r.actors
@@ -913,6 +940,18 @@ func (w0 *world) runScript(t *testing.T, sc script) *result {
 		if r.inc == nil || isKilled() || !r.quiescent(actors) {
 			return
 		}
+		r.mu.Lock()
+		nBefore := len(r.res.Violations)
+		r.mu.Unlock()
+		defer func() {
+			// an asynchronous retry goroutine may have stopped the process (scripted crash inside a receiver) while
+			// this evaluation was running: what it saw then is not an observation of a quiescent state
+			if isKilled() {
+				r.mu.Lock()
+				r.res.Violations = r.res.Violations[:nBefore]
+				r.mu.Unlock()
+			}
+		}()
 		if props["C08"] {
 			r.checkDerived(r.inc.st, r.inc.inner, when, corruptPages)
 		}
@@ -957,8 +996,20 @@ func (w0 *world) runScript(t *testing.T, sc script) *result {
 			r.mu.Lock()
 			r.res.Trace = append(r.res.Trace, map[string]any{"ev": "add.begin", "p": p, "t": c.name, "pl": s.str("pl")})
 			r.mu.Unlock()
+			plKind := s.str("pl")
+			present0 := false
+			if st0, e0 := readStored(inc.inner); e0 == nil {
+				_, present0 = st0.clock[c.ref]
+			}
 			sched.Go(p, func(cx context.Context) {
 				err := inc.st.Add(cx, c.tx, payload)
+				if err == nil && plKind == "bad" && !present0 {
+					if st1, e1 := readStored(inc.inner); e1 == nil {
+						if _, now := st1.clock[c.ref]; now {
+							r.violL("C06", "payload-mismatch-admitted", fmt.Sprintf("%s was admitted together with a payload that does not hash to its declared payload hash", c.name))
+						}
+					}
+				}
 				r.mu.Lock()
 				r.addErr[p] = err
 				res := "ok"
@@ -995,8 +1046,8 @@ func (w0 *world) runScript(t *testing.T, sc script) *result {
 				return false, nil
 			}
 			dir := "go"
-			if a == "Rollback" {
-				dir = "fail"
+			if a == "Rollback" && lastLW[p] != "error" {
+				dir = "fail" // injected commit failure; an error of the write function itself is left to the real code
 			}
 			now, err := sched.Step(p, want, dir)
 			if err != nil {
@@ -1049,15 +1100,7 @@ func (w0 *world) runScript(t *testing.T, sc script) *result {
 		case "CheckPage":
 			pg := uint32(s["pg"].(float64))
 			real := r.realPage(pg)
-			before := r.leafSnapshot()
-			dagVerifCheckPage(r.inc.st, real)
-			after := r.leafSnapshot()
-			for k, v := range after {
-				if k != real && !bytes.Equal(before[k], v) {
-					r.viol("C08", "repair-not-local", fmt.Sprintf("repair of page %d changed the stored leaf of page %d", real, k))
-				}
-			}
-			delete(corruptPages, real)
+			r.repairUntil(real)
 			r.res.Trace = append(r.res.Trace, map[string]any{"ev": "checkpage", "pg": s["pg"]})
 			return true, nil
 		case "Crash":
@@ -1169,6 +1212,39 @@ func (w0 *world) runScript(t *testing.T, sc script) *result {
 	return r.finish(actors)
 }
 
+// repairUntil lets the REAL repair loop run (page cursor included) until it has visited the wanted page; the loop
+// must get there within one cycle over the pages. Every round may only change the leaf of the page it visits.
+func (r *run) repairUntil(want uint32) {
+	s, err := readStored(r.inc.inner)
+	if err != nil {
+		return
+	}
+	pages := s.maxLc/dag.PageSize + 1
+	for pg := range r.corrupt {
+		if pg+1 > pages {
+			pages = pg + 1
+		}
+	}
+	visited := false
+	for i := uint32(0); i < 2*pages+2 && !visited; i++ {
+		before := r.leafSnapshot()
+		pg := dagVerifRepairRound(r.inc.st)
+		after := r.leafSnapshot()
+		for k, v := range after {
+			if k != pg && !bytes.Equal(before[k], v) {
+				r.viol("C08", "repair-not-local", fmt.Sprintf("the repair round on page %d changed the stored leaf of page %d", pg, k))
+			}
+		}
+		delete(r.corrupt, pg)
+		if pg == want {
+			visited = true
+		}
+	}
+	if !visited && want*dag.PageSize <= s.maxLc {
+		r.viol("C08", "repair-skips-page", fmt.Sprintf("the repair loop never visits page %d (highest clock %d)", want, s.maxLc))
+	}
+}
+
 func (r *run) realPage(abstract uint32) uint32 {
 	// model P=2 with Base ≡ 510 (mod 512): abstract clock c -> real Base+c
 	return (uint32(r.w.in.Base) + abstract*2) / dag.PageSize
@@ -1274,7 +1350,7 @@ func (r *run) finish(actors map[string]bool) *result {
 	r.settle()
 	// pages the environment corrupted and the script did not repair: the repair procedure must restore them
 	for pg := range r.corrupt {
-		dagVerifCheckPage(r.inc.st, pg)
+		r.repairUntil(pg)
 		delete(r.corrupt, pg)
 	}
 	for i := 0; i < r.restarts; i++ {
@@ -1443,6 +1519,23 @@ func (r *run) checkDelivery() {
 				continue // completion recorded
 			}
 			// still queued: must be visible with a retry count that reflects the attempts
+			failedList, _ := r.inc.nots[sub.Name].GetFailedEvents()
+			visible := false
+			for _, e := range failedList {
+				if r.name(e.Hash) == n {
+					visible = true
+				}
+			}
+			r.mu.Lock()
+			_, wasFatal := r.fatalGen[sub.Name+"/"+n]
+			keepsFailing := r.defResp == "fail" || r.defResp == "incomplete"
+			r.mu.Unlock()
+			if wasFatal && !visible {
+				r.violL("C14", "fatal-not-visible-as-failed", fmt.Sprintf("%s/%s was refused with a fatal error but is not reported as a failed event (retries=%d)", sub.Name, n, j.Retries))
+			}
+			if !wasFatal && keepsFailing && j.Retries < 20 {
+				r.violL("C14", "retries-stopped-before-budget", fmt.Sprintf("%s/%s is still undelivered, the receiver keeps failing, but retrying stopped after %d of 20 attempts", sub.Name, n, j.Retries))
+			}
 			if j.Retries == 0 {
 				r.violL("C14", "retry-count-lost", fmt.Sprintf("%s/%s was delivered %d times without completion but its job shows 0 retries", sub.Name, n, delivered[n]))
 			}
